@@ -13,10 +13,10 @@ func builtinNewError(obj *object, argumentList []Value) Value {
 }
 
 func builtinErrorToString(call FunctionCall) Value {
-	thisObject := call.thisObject()
-	if thisObject == nil {
-		panic(call.runtime.panicTypeError("Error.toString is nil"))
+	if !call.This.resolve().IsObject() {
+		panic(call.runtime.panicTypeError("Error.prototype.toString called on a non-object"))
 	}
+	thisObject := call.thisObject()
 
 	name := classErrorName
 	nameValue := thisObject.get("name")
